@@ -1453,8 +1453,8 @@ Qed.
 Lemma create_and_add_eq : forall b m L t d, inv d -> find_tab b (d_tabs d) = Some t -> msg_exists m d = false -> NoDup L ->
   let fl := filter (fun f => negb (is_deleted_flag f)) L in
   let d1 := with_msg d m fl in
-  exists n, op_create_message_and_add b (mkReq m m m L) d
-            = Ok (if existsb is_deleted_flag L then do_setdel b true [m] (tab_append [m] t) (do_add b [m] t d1) else do_add b [m] t d1) (RNum n).
+  exists v, op_create_message_and_add b (mkReq m m m L) d
+            = Ok (if existsb is_deleted_flag L then do_setdel b true [m] (tab_append [m] t) (do_add b [m] t d1) else do_add b [m] t d1) v.
 Proof.
   intros b m L t d I Ht Hnew Hnd fl d1. subst d1. subst fl.
   assert (Hrem : existsb (fun y => N.eqb (mg_remote y) m) (d_msgs d) = false).
@@ -1490,7 +1490,7 @@ Proof.
   cbn [tab_ins_rows]. unfold upd_tab. cbn [d_tabs set_m2m d_msgs]. change (d_tabs d1) with (d_tabs d). rewrite Ht.
   cbn [foldM]. unfold tab_ins1. rewrite R1, R2.
   change (existsb (fun x => N.eqb (mg_id x) m) (d_msgs d1)) with (msg_exists m d1). rewrite E1. cbn [negb obind].
-  exists (t_seq t + 1).
+  exists (RUidFlags (t_seq t + 1) (L ++ [recent_flag_name])).
   change (mkTab (t_box t) (t_seq t + 1) (t_rows t ++ [mkRow (t_seq t + 1) m m false true])) with (tab_append [m] t).
   change (set_tabs (set_m2m d1 (d_m2m d ++ [(m, b)])) (put_tab (tab_append [m] t) (d_tabs d))) with (do_add b [m] t d1).
   destruct (existsb is_deleted_flag L); [|reflexivity].
